@@ -1,5 +1,7 @@
 """C12 - unit conversion matches the unit definitions. DESIGN.md 3.C12."""
 
+import json
+import os
 from fractions import Fraction
 
 from . import lex, mon
@@ -44,6 +46,30 @@ def near(obs, want, rel=1e-9):
     return abs(obs - wf) <= rel * max(abs(wf), 1e-300)
 
 
+BRIDGES = [('imperial-unit-length', 'metric-length'), ('imperial-unit-weight', 'metric-weight')]
+
+
+def re_anchored_bridges(rng, units):
+    """-> ops that build calculator 3 from the stock configuration text with re-anchored bridges"""
+    from . import core
+    stock = json.load(open(os.path.join(core.REPO, 'src/json/config.json')))
+    edits = []
+    for k, entry in enumerate(stock['type_conversion']):
+        names = (entry['source']['name'], entry['target']['name'])
+        if names not in BRIDGES:
+            return []
+        ua = rng.choice([u for u in units.values() if u['group'] == names[0]])
+        ub = rng.choice([u for u in units.values() if u['group'] == names[1]])
+        if rng.random() < 0.5:
+            ua, ub = ub, ua          # the bridge written in the other direction
+        f = Fraction(ua['size']) / Fraction(ub['size'])        # one anchor unit of the source table in anchor units of the target table
+        edits += [['/type_conversion/%d/source/name' % k, ua['group']], ['/type_conversion/%d/source/index' % k, ua['index']],
+                  ['/type_conversion/%d/target/name' % k, ub['group']], ['/type_conversion/%d/target/index' % k, ub['index']],
+                  ['/type_conversion/%d/to_source_calculation' % k, '{value} * %d / %d' % (f.numerator, f.denominator)],
+                  ['/type_conversion/%d/to_target_calculation' % k, '{value} * %d / %d' % (f.denominator, f.numerator)]]
+    return [{'op': 'new_calc_json', 'c': 3, 'seg': True, 'path': os.path.join(core.REPO, 'src/json/config.json'), 'set': edits}]
+
+
 def run_shard(ctx):
     rng = ctx.rng
     res = ctx.res
@@ -59,6 +85,10 @@ def run_shard(ctx):
     cross_iter = iter(cross[ctx.shard::ctx.nshards])
     while not ctx.out_of_time():
         batch = []   # (class, [(sep, text)], judge data)
+        # every third batch runs on a calculator built (SmartCalc::load_from_json) from the stock configuration with the two bridges between
+        # the imperial and the metric tables anchored at other units, in either direction: every unit keeps its definition
+        bridge_ops = re_anchored_bridges(rng, units) if rng.random() < 0.34 else []
+        res.count('batches:re-anchored-bridges' if bridge_ops else 'batches:stock-configuration')
         for _ in range(40):
             r = rng.random()
             if r < 0.45:
@@ -77,7 +107,10 @@ def run_shard(ctx):
                 cands = [c for c in keys if units[c]['kind'] == units[a]['kind'] and c not in (a, b)]
                 batch.append(('twostep', (a, b, rng.choice(cands)), rng.choice(['1', '2.5', '1000', '3'])))
             else:
-                batch.append((rng.choice(['add', 'sub', 'mul', 'div', 'ratio']), rng.choice(same), (rng.choice(AMOUNTS[:5] + ['3']), rng.choice(['2', '4', '0.5', '10', '3', '0', '1']))))
+                p = rng.choice(same)
+                if rng.random() < 0.2:
+                    p = (p[0], p[0])          # one unit on both sides, in two of its spellings where it has two
+                batch.append((rng.choice(['add', 'sub', 'mul', 'div', 'ratio']), p, (rng.choice(AMOUNTS[:5] + ['3']), rng.choice(['2', '4', '0.5', '10', '3', '0', '1']))))
         # every case is evaluated under all four separator conventions
         per_sep = {}
         texts = {}
@@ -101,7 +134,12 @@ def run_shard(ctx):
                 else:
                     a, b = p
                     x, y = amt
-                    if cls == 'add':
+                    if a == b:
+                        sa = rng.choice(units[a]['spellings'])
+                        sb = rng.choice([w for w in units[a]['spellings'] if w != sa] or [sa])
+                        text = {'add': '%s %s + %s %s', 'sub': '%s %s - %s %s', 'mul': '%s %s * %s', 'div': '%s %s / %s', 'ratio': '%s %s / %s %s'}[cls] % \
+                            ((lit(x), sa, lit(y), sb) if cls in ('add', 'sub', 'ratio') else (lit(x), sa, lit(y)))
+                    elif cls == 'add':
                         text = '%s %s + %s %s' % (lit(x), rng.choice(units[a]['spellings']), lit(y), rng.choice(units[b]['spellings']))
                     elif cls == 'sub':
                         text = '%s %s - %s %s' % (lit(x), rng.choice(units[a]['spellings']), lit(y), rng.choice(units[b]['spellings']))
@@ -114,7 +152,11 @@ def run_shard(ctx):
                 items.append(('en', text))
                 texts[(sep, bi)] = text
             cfg = mon.cfg_with(dec=sep[0], thou=sep[1])
-            per_sep[sep] = mon.run_lines(drv, cfg, items)
+            if bridge_ops:
+                cops = bridge_ops + mon.gh.config_ops(cfg, c=3)
+                per_sep[sep] = drv.run(cops + [{'op': 'execute', 'c': 3, 'lang': l_, 'text': t_} for l_, t_ in items])[len(cops):]
+            else:
+                per_sep[sep] = mon.run_lines(drv, cfg, items)
         for bi, (cls, p, amt) in enumerate(batch):
             verdicts = {}
             for sep in SEP_CONFIGS:
@@ -151,12 +193,17 @@ def run_shard(ctx):
                 sig = 'unit:%s:%s>%s:%s' % (cls, ga, gb, direction)
             if sepdep:
                 sig += ':sep-dependent'
+            if a == b:
+                sig += ':one-unit-two-spellings'
+            if bridge_ops:
+                sig += ':re-anchored-bridges'
             sep = sorted(bad)[0]
             cfg = mon.cfg_with(dec=sep[0], thou=sep[1])
             text = texts[(sep, bi)]
             res.violation(sig, '%r under separators %r: %s%s' % (text, sep, bad[sep], ' (holds under %r)' % ([s_ for s_ in SEP_CONFIGS if s_ not in bad],) if sepdep else ''),
                           {'config': cfg, 'lang': 'en', 'text': text, 'failing_separators': sorted(bad),
-                           'ops': mon.gh.config_ops(cfg) + [{'op': 'execute', 'lang': 'en', 'text': text}]})
+                           'ops': (bridge_ops + mon.gh.config_ops(cfg, c=3) + [{'op': 'execute', 'c': 3, 'lang': 'en', 'text': text}]) if bridge_ops else
+                                  (mon.gh.config_ops(cfg) + [{'op': 'execute', 'lang': 'en', 'text': text}])})
             res.count('violating_cases', len(bad) - 1)
 
 
